@@ -48,6 +48,14 @@ structure Universe where
   objTy : Obj → Option Ty
   /-- scripted failure of the k-th invocation of a method of an object -/
   raises : Obj → String → Nat → Option String
+  /-- scripted reaction of the k-th invocation of a method of an object: the callback itself calls
+  `world.delete_entity(e)` (deferred deletion: the entity is marked, world.py:301-302) before it
+  returns or raises.  Callbacks are otherwise passive. -/
+  reacts : Obj → String → Nat → Option Ent := fun _ _ _ => none
+
+/-- no callback calls back into the world -/
+class Universe.Passive (U : Universe) : Prop where
+  noReact : ∀ o m k, U.reacts o m k = none
 
 def Universe.cls (U : Universe) (t : Ty) : WClass := (U.classes[t]?).getD { bases := [] }
 
@@ -123,10 +131,14 @@ def tyOf (U : Universe) (o : Obj) : Ty := (U.objTy o).getD 0
 def row (s : St) (e : Ent) : Dict Ty Obj := (Dict.get? s.ents e).getD []
 def idx (s : St) (t : Ty) : List Ent := (Dict.get? s.comps t).getD []
 
-/-- a callback: log entry, invocation counter, scripted failure -/
+/-- a callback: log entry, invocation counter, scripted reaction (`delete_entity` of some entity,
+deferred), scripted failure -/
 def callCb (U : Universe) (s : St) (o : Obj) (meth : String) (e : Entry) : St × Outcome :=
   let k := (Dict.get? s.calls (o, meth)).getD 0
   let s := { s with calls := Dict.set s.calls (o, meth) (k + 1), log := e :: s.log }
+  let s := match U.reacts o meth k with
+    | some x => { s with dead := setAdd s.dead x }
+    | none => s
   match U.raises o meth k with
   | some x => (s, .raised x)
   | none => (s, .ok)
@@ -527,6 +539,8 @@ open Desper Proto
 
 inductive ScOp where
   | snap
+  /-- the program drops its own reference to an object: nothing happens in the world -/
+  | forget
   | op (o : Op)
   | via (k : Obj) (v : Via)
 
@@ -538,6 +552,7 @@ structure Parsed where
   maps : List (Option Mapping) := []
   objTy : Dict Obj Ty := []
   raises : Dict (Obj × String × Nat) String := []
+  reacts : Dict (Obj × String × Nat) Ent := []
   sweeps : List (List Ent) := []
   entUniverse : List Ent := []
   ops : List ScOp := []
@@ -593,6 +608,7 @@ def parseOp : List String → Option ScOp
   | ["enable", b] => do pure (.op (.enable (← bool? b)))
   | ["dispatch", ev, args] => some (.op (.dispatch ev args))
   | ["snap"] => some .snap
+  | ["forget", _] => some .forget
   | "via" :: k :: rest => do pure (.via (← k.toNat?) (← parseVia rest))
   | _ => none
 
@@ -607,6 +623,10 @@ def parseLine (p : Parsed) (line : String) : Parsed :=
     match o.toNat?, k.toNat? with
     | some o, some k => { p with raises := Dict.set p.raises (o, m, k) x }
     | _, _ => { p with bad := true }
+  | ["react", o, m, k, "delete", x] =>
+    match o.toNat?, k.toNat?, x.toNat? with
+    | some o, some k, some x => { p with reacts := Dict.set p.reacts (o, m, k) x }
+    | _, _, _ => { p with bad := true }
   | ["hint", "sweep", l] =>
     match natList? l with
     | some es => { p with sweeps := p.sweeps ++ [es] }
@@ -626,7 +646,8 @@ def Parsed.universe (p : Parsed) : Universe :=
   { classes := p.classes
     mapping := fun t => (p.maps[t]?).join
     objTy := fun o => Dict.get? p.objTy o
-    raises := fun o m k => Dict.get? p.raises (o, m, k) }
+    raises := fun o m k => Dict.get? p.raises (o, m, k)
+    reacts := fun o m k => Dict.get? p.reacts (o, m, k) }
 
 def showEntry : Entry → List String
   | .life _ o m (some e) => [s!"cb {o} {m} e{e}"]
@@ -671,6 +692,7 @@ def runScenario (lines : List String) : List String :=
   let s := p.ops.foldl (fun (s : St) op =>
     match op with
     | .snap => { s with log := (snapshot U p { s with log := [] }).reverse.map Entry.out ++ s.log }
+    | .forget => { s with log := Entry.ret "-" :: Entry.res .ok :: s.log }
     | .op op =>
       let r := step U s op
       { r.1 with log := Entry.ret r.2.2 :: Entry.res r.2.1 :: r.1.log }
